@@ -7,16 +7,20 @@ cd "$(dirname "$0")"
 ROOT=$(pwd)
 export GOFLAGS=-mod=mod GOPROXY=off GOSUMDB=off GOTOOLCHAIN=local VERIF_ROOT=$ROOT
 export GOCACHE=${GOCACHE:-$ROOT/.cache/go-build}
+REPO=${VERIF_REPO:-/repo/v4}   # the tree under test (default: /repo's working tree)
 WORK=$(mktemp -d "$ROOT/.work.XXXXXX")
 trap 'rm -rf "$WORK"' EXIT
 [ -x bin/vinstr ] || go build -o bin/vinstr ./cmd/vinstr || { echo "verif: cannot build vinstr" >&2; exit 2; }
-cp /repo/v4/go.sum "$WORK/repo.go.sum" 2>/dev/null
-bin/vinstr -repo /repo/v4 -rt "$ROOT/_rt" -out "$WORK" || { echo "verif: instrumentation failed (exit 2: machinery, not a verdict)" >&2; exit 2; }
+bin/vinstr -repo "$REPO" -rt "$ROOT/_rt" -out "$WORK" || { echo "verif: instrumentation failed (exit 2: machinery, not a verdict)" >&2; exit 2; }
 case "${1:-}" in
 transparency)
-  (cd /repo/v4 && go test -overlay "$WORK/overlay.json" -vet=off -count=1 ./... ) ; exit $? ;;
+  (cd "$REPO" && go test -overlay "$WORK/overlay.json" -vet=off -count=1 ./... ) ; exit $? ;;
 esac
-go build -overlay "$WORK/overlay.json" -o "$WORK/vcheck" ./cmd/vcheck || { echo "verif: harness build failed (machinery, not a verdict)" >&2; exit 2; }
+MODFLAG=""
+if [ "$REPO" != "/repo/v4" ]; then
+  sed "s|=> /repo/v4|=> $REPO|" go.mod > "$WORK/go.mod"; cp go.sum "$WORK/go.sum"; MODFLAG="-modfile=$WORK/go.mod"
+fi
+go build $MODFLAG -overlay "$WORK/overlay.json" -o "$WORK/vcheck" ./cmd/vcheck || { echo "verif: harness build failed (machinery, not a verdict)" >&2; exit 2; }
 case "${1:-}" in
 replay) "$WORK/vcheck" replay "$2"; exit $? ;;
 list) "$WORK/vcheck" list; exit $? ;;
